@@ -19,7 +19,7 @@ Ltac open_model :=
 
 Ltac tie :=
   first
-  [ reflexivity
+  [ match goal with |- ?a = ?a => reflexivity end
   | match goal with
     | |- (if _ then _ else _) = (if _ then _ else _) => apply ite_ext; [tieb | tie | tie]
     | |- Rpower _ _ = Rpower _ _ => apply f_equal2; tie
@@ -40,7 +40,7 @@ Ltac tie :=
   | (field; lra) ]
 with tieb :=
   first
-  [ reflexivity
+  [ match goal with |- ?a = ?a => reflexivity end
   | match goal with
     | |- Rltb _ _ = Rltb _ _ => apply f_equal2; tie
     | |- Rleb _ _ = Rleb _ _ => apply f_equal2; tie
